@@ -265,6 +265,9 @@ def cubic_spline(
             )
         )
 
+    # Rounding must not push the result out of the unit interval (as in the other splines).
+    outputs = torch.clamp(outputs, 0, 1)
+
     # The spline itself maps [0, 1] to [0, 1]; account for the scaling of the two boxes.
     log_box_scale = math.log(top - bottom) - math.log(right - left)
     if inverse:
